@@ -2,7 +2,7 @@ package main
 
 // C19 — core builtins and bundled package tables agree with their Go counterparts.
 //
-// Seven phases (histories: see c19_r5.go; kept results and deferred misuse: see c19_r6.go; swallowed
+// Seven phases, and five round-8 phases in c19_r8.go (histories: see c19_r5.go; kept results and deferred misuse: see c19_r6.go; swallowed
 // failures and sizes: see c19_r7.go):
 //   tables  structural invariant on the LIVE env.Packages / env.PackageTypes tables (exhaustive):
 //           every Func entry resolves (runtime.FuncForPC) to the symbol "<import path>.<key>", every
@@ -221,9 +221,11 @@ func c19TablesCase(c *wk.Case, pkg string) {
 		c19TablesRebind(c, pkg, funcs)
 		c19TablesScript(c, pkg, funcs, types)
 	}
-	c.Count("table-functions", nf)
-	c.Count("table-types", len(types))
-	c.Count("table-nonfunction-values", len(funcs)-nf)
+	if c.Phase == "tables" { // phase imports (round 8) re-runs the invariant: the table sizes are counted once
+		c.Count("table-functions", nf)
+		c.Count("table-types", len(types))
+		c.Count("table-nonfunction-values", len(funcs)-nf)
+	}
 }
 
 // ---------------------------------------------------------------------------------------------
@@ -2095,7 +2097,7 @@ func init() {
 					"range: all triples (and 1-/2-argument forms, wrong counts, zero steps) over an int64 boundary pool (18 values quick, 37 thorough) whose progression has <= 10000 elements, plus PRNG triples, each run in a limited child process and compared with the math/big progression; " +
 					"values: every builtin of {typeOf kindOf len keys toInt toFloat toString toRune toChar toByteSlice toRuneSlice toBoolSlice toStringSlice toIntSlice toFloatSlice} on a fixed universe of Go- and script-created values, PRNG numbers/numerals/strings/maps/slices and reflect-built random types, against native Go; " +
 					"misuse: every builtin x wrong argument count (direct and spread) x every value kind, and non-integer arguments of range; every such misuse, the wrong argument types the references demand an error for, and wrong counts / zero steps of range also as the call of a defer statement in 8 positions (top level, between other deferred calls, in a block, in a loop, in a named / anonymous / deferred / nested script function): an error of the run, never a panic out of vm.Execute; " +
-					"histories: sequences of calls of the container-returning builtins (range with 1-3 small arguments in related spellings, keys, the typed-slice and byte/rune slice forms) in which the script or the host stores into, appends to or uses the spare capacity of what a call returned before the builtin is called again with the same or related arguments, in the same and in fresh environments of one process; every call is judged against the native reference of the arguments' current values (case 0: every n in 0..130 in every spelling, all positions overwritten); kept results: histories over variables (host byte slices / strings / lists with byte-slice elements / maps, a bytes.Buffer) in which conversion results (toString, toByteSlice, toRuneSlice, the typed-slice forms, keys) are kept in variables and used as map keys while the script, the host or a Go API that reuses its memory (strings.Reader.Read into the same bytes, Buffer.Reset/Truncate+Write, an append into the shared backing array) stores into their arguments, and slice results are stored into while the arguments are kept: after every step every variable not stored into must deep-equal its private host-side copy and the key map must hold exactly the converted keys (case 0: every length 1..8 x origin of the bytes x position x kind of store); " + c19R7Rule + " An evaluation is non-trivial when the statement fixes its outcome; distinct = distinct (call, argument type, argument rendering).",
+					"histories: sequences of calls of the container-returning builtins (range with 1-3 small arguments in related spellings, keys, the typed-slice and byte/rune slice forms) in which the script or the host stores into, appends to or uses the spare capacity of what a call returned before the builtin is called again with the same or related arguments, in the same and in fresh environments of one process; every call is judged against the native reference of the arguments' current values (case 0: every n in 0..130 in every spelling, all positions overwritten); kept results: histories over variables (host byte slices / strings / lists with byte-slice elements / maps, a bytes.Buffer) in which conversion results (toString, toByteSlice, toRuneSlice, the typed-slice forms, keys) are kept in variables and used as map keys while the script, the host or a Go API that reuses its memory (strings.Reader.Read into the same bytes, Buffer.Reset/Truncate+Write, an append into the shared backing array) stores into their arguments, and slice results are stored into while the arguments are kept: after every step every variable not stored into must deep-equal its private host-side copy and the key map must hold exactly the converted keys (case 0: every length 1..8 x origin of the bytes x position x kind of store); " + c19R7Rule + " An evaluation is non-trivial when the statement fixes its outcome; distinct = distinct (call, argument type, argument rendering)." + c19R8Rule,
 				Assumptions: []string{
 					"reference = Go itself on the same toolchain: math/big, strconv, fmt.Sprint, reflect.Type.String, native conversions",
 					"runtime.FuncForPC(entry).Name() identifies the Go function a table entry is bound to; flag.Usage is a func-typed variable and is compared with the variable's value; types defined in anko's own packages directory are anko helpers, not mis-bindings",
@@ -2105,8 +2107,9 @@ func init() {
 					"deferred misuse: the body of every script succeeds, so 'reported as an error' = vm.Execute returns a non-nil error; `defer len(..)` is not generated (len is syntax, not a call)",
 					"a range call whose child exceeds its heap/CPU budget (legal results need <= 80 kB) did not return the demanded progression: violation with that triple, never a hang",
 					c19R7Assumption1, c19R7Assumption2, c19R7Assumption3,
+					c19R8Assumptions[0], c19R8Assumptions[1], c19R8Assumptions[2],
 				},
-				Phases: []fw.Phase{
+				Phases: append([]fw.Phase{
 					{Name: "tables", Cases: len(c19Pkgs()), Chunk: 4, Exhaust: true, TimeoutS: 300},
 					{Name: "range", Cases: 1 + c19EnumCases(tier) + nRandRange, Chunk: 1, Jobs: 16, TimeoutS: 900},
 					{Name: "values", Cases: nUniCases + nRandVals, Chunk: 40, TimeoutS: 900},
@@ -2114,10 +2117,13 @@ func init() {
 					{Name: "histories", Cases: 1 + nHist, Chunk: 16, Jobs: 4, TimeoutS: 600, MemMB: 3072},
 					{Name: "swallowed", Cases: len(c19SwGroups()) + nSwallow, Chunk: 4, TimeoutS: 600, MemMB: 3072},
 					{Name: "sizes", Cases: len(c19Sizes(tier)) + 1, Chunk: 2, TimeoutS: 900},
-				},
+				}, c19R8Phases(tier)...), // round 8 (c19_r8.go)
 			}
 		},
 		Run: func(c *wk.Case) {
+			if c19R8Run(c) { // round 8 (c19_r8.go)
+				return
+			}
 			switch c.Phase {
 			case "tables":
 				pk := c19Pkgs()
